@@ -104,8 +104,8 @@ PROPS = {
                  "polls the task needed (abort never fired); distinct = hash(case, per-callback exit kinds of the child, abort fired)."),
         "assumptions": ["supervisor with Ignore policy stays alive for the whole scenario"],
         "runs": [
-            {"engine": "vt", "quick": 536, "thorough": 536, "what": "E-A fault enumeration incl. abort-at-poll-k via the poll interposer (exhaustive over the family)"},
-            {"engine": "th", "quick": 108, "thorough": 108, "what": "E-T: thread-local children (own spawner thread, real clock) under H1 noise"},
+            {"engine": "vt", "quick": 568, "thorough": 568, "what": "E-A fault enumeration incl. abort-at-poll-k via the poll interposer (exhaustive over the family)"},
+            {"engine": "th", "quick": 124, "thorough": 124, "what": "E-T: thread-local children (own spawner thread, real clock) under H1 noise"},
         ],
     },
     "C05": {
@@ -436,7 +436,7 @@ PROPS["C01"]["runs"].append({"engine": "th", "build": "alt", "quick": 800, "thor
                              "what": "E-T on the alt build"})
 PROPS["C03"]["runs"].append({"engine": "vt", "build": "alt", "quick": 6276, "thorough": 6276,
                              "what": "E-A arrival sweep on the alt build (async-trait actors)"})
-PROPS["C04"]["runs"].append({"engine": "vt", "build": "alt", "quick": 536, "thorough": 536,
+PROPS["C04"]["runs"].append({"engine": "vt", "build": "alt", "quick": 568, "thorough": 568,
                              "what": "E-A fault enumeration on the alt build (async-trait actors)"})
 for _k in ("C01", "C03", "C04"):
     PROPS[_k]["level_note"] += " The alt-build runs repeat the E-A (and for C01 the E-T) scenarios with the async-trait feature on."
